@@ -1018,6 +1018,33 @@ func BoundaryShapes() []*prog.Program {
 	build("bnd_in", []bool{true, false}, false)
 	build("bnd_nn", []bool{false, false}, false)
 	build("bnd_ii", []bool{true, true}, false)
+	// two tokens wait in the same host activity at once (parallel fork, exclusive merge in front
+	// of the host): an event still reaches the boundary event
+	{
+		b := prog.NewBuilder("bnd_two_tokens_n")
+		s := b.AddNode("start", "")
+		f := b.AddNode("and", "")
+		m := b.AddNode("xor", "")
+		host := b.AddNode("task", "")
+		tn := b.AddNode("task", "")
+		en := b.AddNode("end", "")
+		b.Connect(s, f, prog.Cond{})
+		b.Connect(f, m, prog.Cond{})
+		b.Connect(f, m, prog.Cond{})
+		b.Connect(m, host, prog.Cond{})
+		b.Connect(host, tn, prog.Cond{})
+		b.Connect(tn, en, prog.Cond{})
+		bd := b.AddNode("boundary", "")
+		b.N(bd).Attached = host
+		b.N(bd).Intr = false
+		b.N(bd).Evs = sig("A")
+		tx := b.AddNode("task", "")
+		ex := b.AddNode("end", "")
+		b.Connect(bd, tx, prog.Cond{})
+		b.Connect(tx, ex, prog.Cond{})
+		b.P.Tags = append(b.P.Tags, "boundary-noninterrupting", "boundary", "boundary-two-tokens")
+		out = append(out, b.Done())
+	}
 	build("bnd_sub_i", []bool{true}, true)
 	build("bnd_sub_n", []bool{false}, true)
 	// the host is activated again (loop back from a decision behind it): an event that arrives
